@@ -11,8 +11,8 @@
                     since the repair of F21/F24). *)
 From Coq Require Import List ZArith NArith Bool.
 From TF Require Import Base Query Index DB Spec proofs.QueryP proofs.IndexDefs proofs.ScanP proofs.IndexP
-     proofs.RepP proofs.DBReadP proofs.SelectP proofs.TimeP QueryObj proofs.GuardGenP proofs.LawsP proofs.DBStepP SearchSem proofs.SearchGenP.
-From TF Require gen.GuardGen gen.SearchGen.
+     proofs.RepP proofs.DBReadP proofs.SelectP proofs.TimeP QueryObj proofs.GuardGenP proofs.LawsP proofs.DBStepP SearchSem proofs.SearchGenP ReadSem proofs.ReadGenP.
+From TF Require gen.GuardGen gen.SearchGen gen.ReadGen.
 Import ListNotations.
 
 Theorem C01_search_exact : forall E s q m srt, Inv s -> wf_query E q -> index_safe q ->
@@ -74,6 +74,34 @@ Theorem C01_source_index_search_exact : forall E i pts q, Rep i pts -> wf_points
   exists items, option_map ir_items (SearchGen.search_helper E (q_size q) i q) = Some items /\ exact_answer E pts q items.
 Proof. exact gen_search_exact. Qed.
 
+(* what a query-driven read decides, REGENERATED from tinyflux/database.py on every run (gen/ReadGen.v: the read_op decorator with reindex; contains,
+   count, get and search executed symbolically - is the index asked, with which query, what if it names no position or every position, which
+   storage loop runs - a scan that filters by measurement and evaluates the query, or a walk over the rows the index named - and is the result
+   sorted), is the model's read for every state, query, measurement argument and sort flag; hence the functions as the source defines them,
+   decorator included, answer the specification *)
+Theorem C01_source_prelude_is_the_model : forall s, ReadGen.gen_read_prelude s = read_prelude s.
+Proof. exact gen_read_prelude_eq. Qed.
+Theorem C01_source_search_is_the_model : forall E s q m srt, db_search E s q m srt = (read_prelude s, ReadGen.gen_search E (read_prelude s) q m srt).
+Proof. exact gen_search_eq. Qed.
+Theorem C01_source_count_is_the_model : forall E s q m, db_count E s q m = (read_prelude s, ReadGen.gen_count E (read_prelude s) q m).
+Proof. exact gen_count_eq. Qed.
+Theorem C01_source_get_is_the_model : forall E s q m, db_get E s q m = (read_prelude s, ReadGen.gen_get E (read_prelude s) q m).
+Proof. exact gen_get_eq. Qed.
+Theorem C01_source_contains_is_the_model : forall E s q m, db_contains E s q m = (read_prelude s, ReadGen.gen_contains E (read_prelude s) q m).
+Proof. exact gen_contains_eq. Qed.
+Theorem C01_source_search_exact : forall E s q m srt, Inv s -> wf_query E q -> index_safe q ->
+  ReadGen.gen_search E (ReadGen.gen_read_prelude s) q m srt = OPoints (spec_search E q m srt (st_rows s)).
+Proof. exact gen_search_spec. Qed.
+Theorem C01_source_count_exact : forall E s q m, Inv s -> wf_query E q -> index_safe q ->
+  ReadGen.gen_count E (ReadGen.gen_read_prelude s) q m = ONat (spec_count E q m (st_rows s)).
+Proof. exact gen_count_spec. Qed.
+Theorem C01_source_get_exact : forall E s q m, Inv s -> wf_query E q -> index_safe q ->
+  ReadGen.gen_get E (ReadGen.gen_read_prelude s) q m = OPoint (spec_get E q m (st_rows s)).
+Proof. exact gen_get_spec. Qed.
+Theorem C01_source_contains_exact : forall E s q m, Inv s -> wf_query E q -> index_safe q ->
+  ReadGen.gen_contains E (ReadGen.gen_read_prelude s) q m = OBool (spec_contains E q m (st_rows s)).
+Proof. exact gen_contains_spec. Qed.
+
 (* the index alone: a duplicate-free set of positions that is exactly the set of matches *)
 Theorem C01_index_exact : forall E i pts q, Rep i pts -> wf_points pts -> wf_query E q -> exact_for_index q = true ->
   exists items, isearch E i q = Some items /\ NoDup items /\
@@ -99,3 +127,12 @@ Print Assumptions C01_source_index_search_is_the_model.
 Print Assumptions C01_source_index_search_exact.
 Print Assumptions C01_index_exact.
 Print Assumptions C01_scan_exact.
+Print Assumptions C01_source_prelude_is_the_model.
+Print Assumptions C01_source_search_is_the_model.
+Print Assumptions C01_source_count_is_the_model.
+Print Assumptions C01_source_get_is_the_model.
+Print Assumptions C01_source_contains_is_the_model.
+Print Assumptions C01_source_search_exact.
+Print Assumptions C01_source_count_exact.
+Print Assumptions C01_source_get_exact.
+Print Assumptions C01_source_contains_exact.
